@@ -34,6 +34,7 @@ def stepOk (s : S) : Ev → Bool × S
   | .failed none => (true, s)
   | .mon c => (true, { s with highest := max s.highest c })
   | .restarted => (true, { s with last := none, maxPend := 0 })
+  | .cancelled => (true, s)
 
 def check : S → List Ev → Bool
   | _, [] => true
